@@ -10,7 +10,7 @@ import traceback
 from . import facts
 
 VERIF = facts.VERIF
-EVID = os.path.join(VERIF, "evidence")
+EVID = os.environ.get("ZKV_EVID_DIR") or os.path.join(VERIF, "evidence")
 KNOWN = os.path.join(VERIF, "known_findings.jsonl")
 FLOORS = os.path.join(VERIF, "spec", "floors.json")
 
